@@ -168,7 +168,8 @@ class Scenario:
             if not self.encrypted:
                 self.users.append({'name': f'u{i}', 'pw': None, 'keyfile': None, 'fam': 0, 'uid': 0, 'how': 'unencrypted'})
                 continue
-            how = rng.choice(['shared', 'clone', 'independent'])
+            # every kind of key relationship shows up: the kinds rotate with the scenario's position in the run
+            how = ['clone', 'shared', 'independent'][(getattr(self, 'rotation', rng.randrange(3)) + i) % 3]
             kf = dep.keys / f'u{i}.key'
             if how == 'independent':
                 pw = f'pw{i}'
@@ -1015,6 +1016,71 @@ def refused_removal_probe(ctx, rep, mine):
         shutil.rmtree(wd, ignore_errors=True)
 
 
+def scan_fault_probe(ctx, rep, mine):
+    """EVERY directory scan of a clean and of a delete fails once (EACCES, then EIO), one at a time, each on a fresh copy of one
+    repository that holds three snapshots with shared chunks and the garbage of a killed snapshot.  A command that fails has lost
+    nothing; a command that reports success has seen everything: what is still listed has all its chunks, and clean leaves exactly
+    the referenced chunks."""
+    rng = random.Random(ctx.rng.randint(0, 2 ** 31))
+    wd = Path(ctx.scratch) / 'cli-scan'
+    shutil.rmtree(wd, ignore_errors=True)
+    wd.mkdir(parents=True)
+    sc = Scenario(rng.randint(0, 2 ** 31), wd, 'plain', 0)
+    sc.encrypted = False
+    sc.dep.cache = None
+    try:
+        sc.setup()
+        u = sc.users[0]
+        for _ in range(3):
+            args, files = sc.make_files(u)
+            sc.op_snapshot(u, args, files)
+        args, files = sc.make_files(u, big=True)
+        sc.orphans.update(sc.dry_table(u, args))
+        sc.op_snapshot(u, args, files, inject=[{'fn': 'replace', 'k': 5, 'when': 'after', 'action': 'kill'}])
+    except Scenario.Stop:
+        pass
+    if sc.viol:
+        for v in sc.viol:
+            rep.disagreements.append({'what': 'scan fault probe could not be set up: ' + v['what'], 'replay': {'probe': 'scan_fault'}})
+        shutil.rmtree(wd, ignore_errors=True)
+        return
+    base, _ = sc.dep.disk()
+    victim = sorted(sc.present(base))[0]
+    master = sc.dep.repo
+    jobs = [(command, k, errno_name) for command in ('clean', 'delete') for k in range(14)
+            for errno_name in (('EACCES', 'EIO') if k % 2 == 0 else ('EIO',))]
+
+    def one(job):
+        command, k, errno_name = job
+        copy = wd / f'copy-{command}-{k}-{errno_name}'
+        shutil.copytree(master, copy, symlinks=True)
+        dep2 = Deployment.__new__(Deployment)
+        dep2.__dict__.update(sc.dep.__dict__)
+        dep2.repo, dep2.log = copy, []
+        inject = [{'fn': 'scandir', 'k': k, 'when': 'before', 'action': errno_name}]
+        res = dep2.run(*((command,) if command == 'clean' else (command, '--yes', victim)), user=u, inject=inject)
+        after, _ = dep2.disk()
+        shutil.rmtree(copy, ignore_errors=True)
+        return job, res, after
+    with ThreadPoolExecutor(max_workers=8) as ex:
+        results = list(ex.map(one, jobs))
+    n = len(results)
+    for (command, k, errno_name), res, after in results:
+        what = f'{command} while directory scan #{k} fails once with {errno_name}'
+        if res.rc == -100:
+            sc.v('hang', what + ': the command does not end')
+        sc.restorable_check(what, after)
+        if res.ok and command == 'clean':
+            sc.exact_check(what, u, after)
+    rep.case(('scan-fault', n), nontrivial=True)
+    rep.count('scan_fault_probe_commands', n)
+    for v in sc.viol:
+        v['replay'] = {'probe': 'scan_fault'}
+        if v['signature']['kind'] in mine:
+            rep.violations.append(v)
+    shutil.rmtree(wd, ignore_errors=True)
+
+
 def run_scenarios(ctx, rep, plan, mine, nops=9, encrypted=None):
     """plan: {kind: count}; kinds: 'plain', 'kill', 'oserror', 'corrupt'.  Violations whose kind is in `mine` are kept."""
     jobs = []
@@ -1031,6 +1097,9 @@ def run_scenarios(ctx, rep, plan, mine, nops=9, encrypted=None):
             sc = Scenario(seed, wd, kind, nops)
             if encrypted is not None:
                 sc.encrypted = encrypted
+            sc.rotation = jobs.index(job)
+            if jobs.index(job) % 4 == 0:
+                sc.encrypted = True          # at least the first scenario of every kind has keys
             return sc.run()
         finally:
             shutil.rmtree(wd, ignore_errors=True)
@@ -1069,6 +1138,9 @@ def replay_cli(ctx, obj, mine):
         viol = [v for v in replay_scenario(ctx, r) if v['signature']['kind'] in mine]
     elif r.get('probe') == 'termination':
         termination_probe(ctx, rep, {r.get('command', 'delete')})
+        viol = rep.violations
+    elif r.get('probe') == 'scan_fault':
+        scan_fault_probe(ctx, rep, mine)
         viol = rep.violations
     elif r.get('probe') == 'refused_removal':
         refused_removal_probe(ctx, rep, mine)
